@@ -7,6 +7,13 @@ import (
 	"strconv"
 )
 
+func repoDir() string {
+	if d := os.Getenv("VERIF_REPO"); d != "" {
+		return d
+	}
+	return "/repo"
+}
+
 func usage() {
 	fmt.Fprintln(os.Stderr, "usage: acvh gen <prop> <n> [seed] | impl | extract <outdir>")
 	os.Exit(2)
@@ -30,6 +37,12 @@ func main() {
 		switch os.Args[2] {
 		case "c02":
 			genC02(g, n, os.Stdout)
+		case "hist":
+			genHist(g, n, os.Stdout)
+		case "fuzz":
+			genFuzz(g, repoDir(), n, os.Stdout)
+		case "pipe":
+			genPipe(g, repoDir(), os.Stdout, n > 1)
 		case "c01":
 			stream := "tt"
 			if len(os.Args) > 5 {
